@@ -327,7 +327,7 @@ func checkC08(c *core.Ctx) {
 	// bytes needs a 5-byte length, a track chunk beyond 4 GiB does not fit its 32-bit length field. A successful run
 	// would necessarily have written a malformed file, so these documents must be refused; one byte less is fine.
 	if !c.Quick() {
-		c.StreamSeq("sizes", 3, func(i int, _ *rand.Rand) {
+		c.StreamSeq("sizes", 4, func(i int, _ *rand.Rand) {
 			free := memAvailableMB()
 			text := func(n int) []byte {
 				return append(append([]byte("- values: [1]\n  meta:\n    txt: \""), bytes.Repeat([]byte("a"), n)...), []byte("\"\n")...)
@@ -340,6 +340,10 @@ func checkC08(c *core.Ctx) {
 				what, doc, mustRefuse = "a text of 2^28-1 bytes", text(1<<28-1), false
 			case 1:
 				what, doc = "a text of 2^28 bytes", text(1<<28)
+			case 3:
+				// the limit is about bytes: 89.5 million three-byte characters are more than 2^28 bytes
+				what = "a text of 89,500,000 three-byte characters (268.5 MB)"
+				doc = append(append([]byte("- values: [1]\n  meta:\n    lic: \""), bytes.Repeat([]byte("あ"), 89500000)...), []byte("\"\n")...)
 			default:
 				if free < 40000 {
 					c.Extra("sizes_chunk_probe", fmt.Sprintf("skipped: %d MB of memory available, the probe needs about 25 GB", free))
